@@ -11,6 +11,7 @@ verus! {
 //@include ../shim/lane.rs
 //@include ../shim/slices.rs
 //@include ../shim/bins_types.rs
+//@include ../shim/grid_types.rs
 //@include ../shim/hist.rs
 
 impl<A: Ord> Histogram<A> {
